@@ -44,12 +44,17 @@ pub struct Out {
   pub id: String,
   pub lines: Vec<String>,
   pub cur: usize,
+  pub ltrace: bool,
 }
 
 impl Out {
   /// Lines are written as they are produced, so that what a case printed before
   /// it blocked is not lost when the watchdog ends the process.
-  pub fn emit(&mut self, k: usize, body: String) {
+  pub fn emit(&mut self, k: usize, mut body: String) {
+    // field `ltrace` (any suite, thread-safe flavour): the lock-level trace of the event (hook H2)
+    if self.ltrace && locktrace::is_on() {
+      body.push_str(&format!(" L={}", locktrace::take()));
+    }
     let stdout = io::stdout();
     let mut w = stdout.lock();
     let _ = writeln!(w, "{}.{} {}", self.id, k, body);
@@ -150,8 +155,14 @@ fn main() {
           p.1 = case.id.clone();
           p.2 = 0;
         }
-        let mut out = Out { id: case.id.clone(), lines: vec![], cur: 0 };
+        let mut out = Out { id: case.id.clone(), lines: vec![], cur: 0, ltrace: case.has("ltrace") };
+        if out.ltrace {
+          locktrace::start();
+        }
         let r = catch_unwind(AssertUnwindSafe(|| run_case(&case, &mut out)));
+        if out.ltrace {
+          locktrace::stop();
+        }
         if r.is_err() {
           let k = out.cur;
           out.emit(k, "PANIC".to_string());
